@@ -64,28 +64,53 @@ theorem emit_build_fixed_range (r : Option Int × Option Int) :
   obtain ⟨h1, h2, _⟩ := parse_emitRangeT r
   rw [h1, h2]
 
-/-- full statement: the stored range is what the text denotes, for all (a?, `..`?, b?) -/
-def range_literal_faithful_full : Prop :=
+/-- the stored range is what the text denotes, for all (a?, `..`?, b?) — for the visitor without (`false`) / with (`true`) the
+exact-length repair of hooks/C07-fix2.patch -/
+def range_literal_faithful_with (ex : Bool) : Prop :=
   ∀ (a : Option Nat) (dots : Bool) (b : Option Nat),
-    ((parseRange (rangeTokens a dots b)).start, (parseRange (rangeTokens a dots b)).stop) = rangeDenotes a dots b
+    ((parseRangeWith ex (rangeTokens a dots b)).start, (parseRangeWith ex (rangeTokens a dots b)).stop) = rangeDenotes a dots b
 
-/-- proved for every form except `*n`: `*`, `*..`, `*a..`, `*..b`, `*a..b` -/
-theorem range_literal_faithful_partial (a : Option Nat) (dots : Bool) (b : Option Nat) (h : dots = true ∨ a = none) :
-    ((parseRange (rangeTokens a dots b)).start, (parseRange (rangeTokens a dots b)).stop) = rangeDenotes a dots b ∧
-    (parseRange (rangeTokens a dots b)).errors = 0 := by
-  obtain ⟨he, hs, ht⟩ := parse_rangeTokens a dots b
+/-- full statement for the LIVE visitor (`Repair.exactHops` says which one /repo has; tied by `repairs_as_in_source`) -/
+def range_literal_faithful_full : Prop := range_literal_faithful_with Repair.exactHops
+
+/-- proved for every form except `*n`, for both visitors: `*`, `*..`, `*a..`, `*..b`, `*a..b` -/
+theorem range_literal_faithful_partial_with (ex : Bool) (a : Option Nat) (dots : Bool) (b : Option Nat) (h : dots = true ∨ a = none) :
+    ((parseRangeWith ex (rangeTokens a dots b)).start, (parseRangeWith ex (rangeTokens a dots b)).stop) = rangeDenotes a dots b ∧
+    (parseRangeWith ex (rangeTokens a dots b)).errors = 0 := by
+  obtain ⟨he, hs, ht⟩ := parse_rangeTokens_with ex a dots b
   refine ⟨?_, he⟩
   rw [hs, ht]
   rcases h with h | h
   · subst h; simp [rangeDenotes]
-  · subst h; cases dots <;> simp [rangeDenotes]
+  · subst h; cases dots <;> cases ex <;> simp [rangeDenotes]
 
-/-- `*2` means exactly two hops; the mini-parser stores (2, none), i.e. `*2..` -/
-theorem range_literal_faithful_refuted : ¬ range_literal_faithful_full := by
+theorem range_literal_faithful_partial (a : Option Nat) (dots : Bool) (b : Option Nat) (h : dots = true ∨ a = none) :
+    ((parseRange (rangeTokens a dots b)).start, (parseRange (rangeTokens a dots b)).stop) = rangeDenotes a dots b ∧
+    (parseRange (rangeTokens a dots b)).errors = 0 :=
+  range_literal_faithful_partial_with _ a dots b h
+
+/-- the REPAIRED visitor (EndIndex = StartIndex when no range operator is present) reads every form as it is written -/
+theorem range_literal_faithful_fixed : range_literal_faithful_with true := by
+  intro a dots b
+  obtain ⟨_, hs, ht⟩ := parse_rangeTokens_with true a dots b
+  rw [hs, ht]
+  cases dots <;> simp [rangeDenotes]
+
+/-- `*2` means exactly two hops; the OLD mini-parser stores (2, none), i.e. `*2..` -/
+theorem range_literal_faithful_refuted_old : ¬ range_literal_faithful_with false := by
   intro h
   have := h (some 2) false none
   revert this
   decide
+
+/-- the LIVE visitor: refuted while /repo has the old text, proved once hooks/C07-fix2.patch is in (the constant is tied to the
+source by `repairs_as_in_source`) -/
+theorem range_literal_faithful_live :
+    (Repair.exactHops = false ∧ ¬ range_literal_faithful_full) ∨ (Repair.exactHops = true ∧ range_literal_faithful_full) := by
+  unfold range_literal_faithful_full
+  cases Repair.exactHops
+  · exact Or.inl ⟨rfl, range_literal_faithful_refuted_old⟩
+  · exact Or.inr ⟨rfl, range_literal_faithful_fixed⟩
 
 /-! ### faithfulness on trees — false of the current code -/
 
@@ -113,20 +138,6 @@ def C07_full : Prop :=
       Dawgs.C08.Inst.E.listenerErrors t = [] → C.ignoredIn t = []) ∧
   range_literal_faithful_full
 
-/-- `MATCH (n) SET n.a.b = 1`: grammatical, complete, no error under frontend.NewContext() — and the walk meets
-(PropertyExpressionVisitor, oC_PropertyLookup), an empty stub: every key overwrites the previous one (`n.b = 1`) -/
-theorem faithful_refuted :
-    setTree.rootRule = some 0 ∧ setTree.wf Dawgs.C08.Inst.refs = true ∧ setTree.conforms Dawgs.C08.Inst.must = true ∧
-    Dawgs.C08.Inst.E.listenerErrors setTree = [] ∧ C.ignoredIn setTree = [(tix "PropertyExpressionVisitor", rix "oC_PropertyLookup"), (tix "PropertyExpressionVisitor", rix "oC_PropertyLookup")] := by
-  decide +kernel
-
-theorem c07_full_refuted : ¬ C07_full := by
-  intro h
-  obtain ⟨h1, h2, h3, h4, h5⟩ := faithful_refuted
-  have := h.1 setTree h1 h2 h3 h4
-  rw [h5] at this
-  cases this
-
 /-- repaired: `MATCH (n) RETURN n.a[0]` (list indexing, formerly read as `0`) is now rejected as unsupported; against the
 OLD table (BaseVisitor.EnterOC_ListOperatorExpression an empty stub) it raised no error -/
 theorem list_index_now_rejected :
@@ -153,13 +164,6 @@ theorem float_format_as_modelled : Generated.Visitors.srcFormatFloatLiteral = ex
 
 /-- `Represented` separates the two sample trees -/
 theorem represented_samples : C.represented sampleQ = true ∧ C.represented idxTree = false := by decide +kernel
-
-/-- the code's reading of `NOT NOT true` equals its reading of `NOT true` (mirror mode of `build`), although the texts differ -/
-theorem not_collapse_witness :
-    (build { N with mirrorNot := true } notNotTree).toOption.map toSexp = (build { N with mirrorNot := true } notTree).toOption.map toSexp ∧
-    (build N notTree).toOption.isSome = true ∧
-    (match build N notNotTree with | .error (.unmodelled r) => r == "oC_NotExpression:repeated-NOT" | _ => false) = true := by
-  decide +kernel
 
 /-- non-vacuity of `build`/`toSexp`/`emit`: on the real tree of `RETURN n.a` the Lean build
 renders exactly what the harness printed for the Go model, and emits the tokens of format.RegularQuery -/
